@@ -431,6 +431,10 @@ func genEntries(r *rand.Rand, n int) []TREntry {
 }
 
 func genC13(r *rand.Rand, run int, _ string) *Scenario {
+	if run%6 == 5 {
+		return genC13Conc(r)
+	}
+
 	sc := &Scenario{Engine: "tr", TickNs: 100, MapSeed: r.Uint64(), JitterSeed: r.Uint64(), Sched: SchedSpec{Kind: "random", Seed: r.Uint64()}}
 	tr := &TRScenario{Mode: "dump"}
 	sc.TR = tr
